@@ -158,7 +158,10 @@ func (i SignerInfo) hasEmptyAuthenticatedAttributes() bool {
 		return false
 	}
 	var seq []asn1.RawValue
-	if _, err := asn1.Unmarshal(i.RawContent, &seq); err != nil || len(seq) < 4 {
+	if _, err := asn1.Unmarshal(i.RawContent, &seq); err != nil {
+		// can't tell, so don't take the field for absent
+		return true
+	} else if len(seq) < 4 {
 		return false
 	}
 	return seq[3].Class == asn1.ClassContextSpecific && seq[3].Tag == 0
